@@ -3,10 +3,10 @@ import AslModel.Model.CmdArg
 import AslModel.Model.ReportPipe
 /-! Driver modes for C17.
 
-`c17opt`  : `T=<identhex>:<kind>,… E=<envhex|-> K=<linehex;…|none> A=<tokhex,…> SE=<tokhex,…|@> SK=<tok,tok;…|none>`
+`c17opt`  : `T=<identhex>:<kind>,… E=<envhex|-> K=<hex of the key file's raw content|-|none> A=<tokhex,…> SE=<tokhex,…|@> SK=<tok,tok;…|none>`
             answer `m=<model trace> s=<spec trace>`; the key file is called `K` on both sides.
             T = switch table with a synthetic handler behaviour per entry (kinds see `behave`),
-            E/K/A = raw ASCMD string, raw key file lines, argv[1..];  SE/SK = the same as parameter lists (for the spec).
+            E/K/A = raw ASCMD string, raw key file content (all bytes, line ends included; `-` = empty file), argv[1..];  SE/SK = the same as parameter lists (for the spec); `SK=raw`: the spec derives the parameter lists from K itself (`keyFileParams`).
 `c17drehe`: `<gran> <len> <bufhex>` → `once=<hex> twice=<hex>`
 `c17pipe` : `<turnWords> <listGran> <gran> (<codelen>:<codehex>:<dontprint>)*` → `on=<hex> off=<hex> same=<0|1> pc=<n>` -/
 namespace Driver.C17
@@ -66,14 +66,17 @@ def handleOpt (line : String) : String :=
   match parseTable (field kv "T"), parseToks (field kv "A") with
   | some recs, some argv =>
     let env : Option Tok := if field kv "E" == "-" then some [] else unhexTok (field kv "E")
-    let klines : Option (Option (List Tok)) :=
-      if field kv "K" == "none" then some none else ((splitNE (field kv "K") ";").mapM unhexTok).map some
+    let kraw : Option (Option Tok) :=
+      if field kv "K" == "none" then some none else if field kv "K" == "-" then some (some []) else (unhexTok (field kv "K")).map some
     let skl : Option (Option (List (List Tok))) :=
-      if field kv "SK" == "none" then some none else ((splitNE (field kv "SK") ";").mapM parseToks).map some
+      if field kv "SK" == "none" || field kv "SK" == "raw" then some none else ((splitNE (field kv "SK") ";").mapM parseToks).map some
     let se : Option (Option (List Tok)) := if field kv "SE" == "@" then some none else (parseToks (field kv "SE")).map some
-    match env, klines, skl, se with
-    | some env, some klines, some skl, some se =>
-      let fs : Tok → Option (List Tok) := fun n => if n == keyName then klines else none
+    match env, kraw, skl, se with
+    | some env, some kraw, some skl, some se =>
+      -- the key file is given by its raw content; the reader (`keyFileLines`: fgets / ReadLn / the feof loop) is part of the model
+      let fs : Tok → Option (List Tok) := rawFs (fun n => if n == keyName then kraw else none)
+      -- `SK=raw`: the spec reads the key file itself (text lines, blank-separated words: `Spec/Options.lean` `keyFileParams`)
+      let skl : Option (List (List Tok)) := if field kv "SK" == "raw" then kraw.map keyFileParams else skl
       let st := processCMD recs fs env argv (St.init [])
       let errs := ",".intercalate (st.errs.map fun
         | .invalid true t => "E" ++ hexTok t
